@@ -217,38 +217,59 @@ func fmtErrorLocationBodyLine(isNativeModule bool, moduleName string, lineNum in
 //	如果代码不为空：
 //	   ^
 func fmtErrorSourceLineWithParser(p *syntax.Parser, cursorIdx int, withCursorMark bool) string {
+	source := p.GetSource()
+	sourceLen := len(source)
+	isLineBreak := func(idx int) bool {
+		return idx < sourceLen && (source[idx] == syntax.RuneCR || source[idx] == syntax.RuneLF)
+	}
+	// the cursor of EOF is len(source)
+	if cursorIdx > sourceLen {
+		cursorIdx = sourceLen
+	}
+	if cursorIdx < 0 {
+		cursorIdx = 0
+	}
 	startIdx := cursorIdx
 	endIdx := startIdx
-	// append EOF to source to avoid index exceed exception
-	sourceT := append(p.GetSource(), 0)
-	for sourceT[startIdx] == syntax.RuneCR || sourceT[startIdx] == syntax.RuneLF {
+	for startIdx > 0 && isLineBreak(startIdx) {
 		startIdx -= 1
 	}
 	// find prev until meeting first CR/LF
 	for startIdx > 0 {
-		if sourceT[startIdx] == syntax.RuneCR || sourceT[startIdx] == syntax.RuneLF {
+		if isLineBreak(startIdx) {
 			startIdx += 1
 			// skip indent chars
-			for sourceT[startIdx] == syntax.RuneSP || sourceT[startIdx] == syntax.RuneTAB {
+			for startIdx < sourceLen && (source[startIdx] == syntax.RuneSP || source[startIdx] == syntax.RuneTAB) {
 				startIdx += 1
 			}
 			break
 		}
 		startIdx -= 1
 	}
-	// find next until meeting first CR/LF
-	for endIdx < len(sourceT) {
-		if sourceT[endIdx] == syntax.RuneCR || sourceT[endIdx] == syntax.RuneLF {
+	// find next until meeting first CR/LF (or the end of source)
+	for endIdx < sourceLen {
+		if isLineBreak(endIdx) {
 			break
 		}
 		endIdx += 1
 	}
+	if endIdx < startIdx {
+		endIdx = startIdx
+	}
 
 	// get relative cursor offset (notice one Chinese char counts for 2 unit offsets)
-	lineText := string(sourceT[startIdx:endIdx])
+	lineText := string(source[startIdx:endIdx])
 	fmtLine := fmt.Sprintf("    %s", lineText)
 	if withCursorMark {
-		cursorText := fmt.Sprintf("\n    %s^", strings.Repeat(" ", calcCursorOffset(lineText, cursorIdx-startIdx)))
+		// the cursor may lie inside the (skipped) indentation
+		col := cursorIdx - startIdx
+		if col < 0 {
+			col = 0
+		}
+		if col > endIdx-startIdx {
+			col = endIdx - startIdx
+		}
+		cursorText := fmt.Sprintf("\n    %s^", strings.Repeat(" ", calcCursorOffset(lineText, col)))
 		fmtLine += cursorText
 	}
 
